@@ -117,7 +117,13 @@ def run(ctx):
     thms = vlib.theorem_names(os.path.join(vlib.COQ, "C14/Props.v"))
     if ok:
         pa = vlib.print_assumptions("C14", [("C14.Props", thms)], ctx.dir)
-        ctx.cov["print_assumptions"] = {"distinct": sorted(set(pa.values()))[:6], "theorems": len(pa)}
+        names = sorted({n for v in pa.values() for n in re.findall(r"([A-Za-z0-9_.']+) : ", v)
+                        if "." in n and not n.startswith(("BinNums", "BinInt"))})
+        closed = sum(1 for v in pa.values() if v.startswith("Closed"))
+        ctx.cov["print_assumptions"] = {
+            "theorems": len(pa), "closed_under_global_context": closed, "axioms_used": names,
+            "note": "formula/support/ctor/norm/cdf theorems: standard Reals + classical axioms only; the *_refuted "
+                    "lemmas are proved with Coq-Interval and additionally list its primitive int63/float axioms"}
     binary, blog = vlib.build_harness("c14")
     if binary is None:
         ctx.violation({"obligation": "build of harness/c14 against the library", "log": blog[-3000:]}, False,
